@@ -97,39 +97,56 @@ func runC19(cfg runCfg) error {
 	jwt.TimeFunc = func() time.Time { return now }
 	distinct := 0
 	defects := []string{"valid", "valid384", "valid512", "tampered", "other_key", "unconfigured_key", "unknown_kid", "no_kid", "alg_none", "hs256_pubkey", "ps256",
-		"expired", "not_yet_valid", "two_segments", "garbage", "basic_auth", "empty_bearer", "unknown_role", "empty_role", "none", "none", "bad_header_good_cookie"}
+		"expired", "not_yet_valid", "two_segments", "garbage", "basic_auth", "empty_bearer", "unknown_role", "empty_role", "no_role_key", "no_role_key", "valid", "valid", "none", "none", "bad_header_good_cookie"}
+	var (
+		left      int
+		instFirst int
+		roles     map[string]string
+		cfgKeys   []string
+		world     *simWorld
+		gw        *gatewayUnderTest
+	)
 	for ci := 0; ci < cfg.n; ci++ {
 		name := fmt.Sprintf("c19-%d-%d", cfg.seed, ci)
-		// configuration
-		roleNames := []string{"admin", "user", "public_role"}
-		roles := map[string]string{}
-		for _, rn := range roleNames {
-			if r.Intn(3) > 0 {
-				roles[rn] = []string{"all", "movies", "pet", "none"}[r.Intn(4)]
+		// configuration: one plugin and gateway instance serves a run of 1-4 consecutive cases, so that nothing one
+		// request leaves behind (decoded claims, roles) may influence the next
+		if left == 0 {
+			left = 1 + r.Intn(4)
+			roleNames := []string{"admin", "user", "public_role"}
+			roles = map[string]string{}
+			for _, rn := range roleNames {
+				if r.Intn(3) > 0 {
+					roles[rn] = []string{"all", "movies", "pet", "none"}[r.Intn(4)]
+				}
 			}
+			cfgKeys = []string{"k1"}
+			if r.Intn(2) == 0 {
+				cfgKeys = append(cfgKeys, "k2")
+			}
+			pk := map[string]string{}
+			for _, k := range cfgKeys {
+				pk[k] = keys[k].pem
+			}
+			rolesJSON := map[string]json.RawMessage{}
+			for rn, p := range roles {
+				rolesJSON[rn] = json.RawMessage(c19Perms[p])
+			}
+			pc, _ := json.Marshal(map[string]interface{}{"public-keys": pk, "roles": rolesJSON})
+			jp := plugins.NewJWTPlugin(nil, nil)
+			if err := jp.Configure(&bramble.Config{}, pc); err != nil {
+				return err
+			}
+			world = &simWorld{fed: fed, data: data}
+			gw, err = newGateway(world, gwOpts{maxRequests: 50, extraPlugins: []bramble.Plugin{jp}})
+			if err != nil {
+				return err
+			}
+			sum.Features["instances"]++
+			instFirst = ci
+		} else {
+			sum.Features["request_after_another_on_same_instance"]++
 		}
-		cfgKeys := []string{"k1"}
-		if r.Intn(2) == 0 {
-			cfgKeys = append(cfgKeys, "k2")
-		}
-		pk := map[string]string{}
-		for _, k := range cfgKeys {
-			pk[k] = keys[k].pem
-		}
-		rolesJSON := map[string]json.RawMessage{}
-		for rn, p := range roles {
-			rolesJSON[rn] = json.RawMessage(c19Perms[p])
-		}
-		pc, _ := json.Marshal(map[string]interface{}{"public-keys": pk, "roles": rolesJSON})
-		jp := plugins.NewJWTPlugin(nil, nil)
-		if err := jp.Configure(&bramble.Config{}, pc); err != nil {
-			return err
-		}
-		world := &simWorld{fed: fed, data: data}
-		gw, err := newGateway(world, gwOpts{maxRequests: 50, extraPlugins: []bramble.Plugin{jp}})
-		if err != nil {
-			return err
-		}
+		left--
 		// credential
 		defect := defects[r.Intn(len(defects))]
 		role := "admin"
@@ -196,7 +213,24 @@ func runC19(cfg runCfg) error {
 		if claims.Subject != "" {
 			claimList = append(claimList, [2]string{"Subject", claims.Subject})
 		}
-		tk := jwt.NewWithClaims(method, claims)
+		var tk *jwt.Token
+		if defect == "no_role_key" { // a correctly signed token whose payload has no Role member at all
+			mc := jwt.MapClaims{"exp": claims.ExpiresAt.Unix()}
+			claims.Role = ""
+			if claims.Subject != "" && r.Intn(2) == 0 {
+				mc["sub"] = claims.Subject
+			} else {
+				claims.Subject = ""
+			}
+			claims.Issuer, claims.ID, claims.Audience = "", "", nil
+			claimList = claimList[:0]
+			if claims.Subject != "" {
+				claimList = append(claimList, [2]string{"Subject", claims.Subject})
+			}
+			tk = jwt.NewWithClaims(method, mc)
+		} else {
+			tk = jwt.NewWithClaims(method, claims)
+		}
 		if kid != nil {
 			tk.Header["kid"] = kid
 		}
@@ -301,7 +335,8 @@ func runC19(cfg runCfg) error {
 		w.add(name, "{| jc_cfg := {| j_keys := "+cstrlist(cfgKeys)+"; j_roles := "+clist(rl)+" |}; jc_presented := "+pres+
 			"; obs_status := "+fmt.Sprint(resp.Status)+"; obs_downstream := "+fmt.Sprint(len(reqs))+"; obs_perms := "+applied+
 			"; obs_headers := "+clist(seenHdrs)+"; obs_headers_uniform := "+cbool(len(hdrSets) <= 1)+" |}")
-		in := map[string]interface{}{"defect": defect, "via_cookie": viaCookie, "roles": roles, "keys": cfgKeys, "role_claim": claims.Role, "status": resp.Status, "downstream_requests": len(reqs)}
+		in := map[string]interface{}{"defect": defect, "via_cookie": viaCookie, "roles": roles, "keys": cfgKeys, "role_claim": claims.Role, "status": resp.Status, "downstream_requests": len(reqs),
+			"history": fmt.Sprintf("request %d on the plugin instance first used by case c19-%d-%d; replay the cases from there in order", ci-instFirst+1, cfg.seed, instFirst)}
 		sum.CaseInputs[name] = in
 		sum.Features["defect_"+defect]++
 		if len(sum.Samples) < 4 {
